@@ -318,7 +318,44 @@ func (x *Exec) nextMap(st *State, it *Iter, tup *types.Tuple) *Val {
 	return &Val{Typ: tup, Tuple: []*Val{{T: ok, Typ: types.Typ[types.Bool]}, kv, vv}}
 }
 
-func (x *Exec) bitOr(st *State, a, b *Term) *Term { return UF("bit.or", SInt, a, b) }
+// bitOr: a | b is a + b when the operands occupy disjoint bit ranges (a below 2^k, b a multiple of 2^k).
+func (x *Exec) bitOr(st *State, a, b *Term) *Term {
+	if v, ok := a.intVal(); ok && v == 0 {
+		return b
+	}
+	if v, ok := b.intVal(); ok && v == 0 {
+		return a
+	}
+	r := UF("bit.or", SInt, a, b)
+	for _, pr := range [][2]*Term{{a, b}, {b, a}} {
+		lo, hi := pr[0], pr[1]
+		if k := pow2Factor(hi); k > 0 {
+			p := IntLit(1 << uint(k))
+			x.ctx.assumeGlobal(st, Implies(And(Le(IntLit(0), lo), Lt(lo, p), Le(IntLit(0), hi), Eq(EMod(hi, p), IntLit(0))), Eq(r, Add(lo, hi))))
+		}
+	}
+	return r
+}
+
+// pow2Factor finds k such that t is syntactically y * 2^k (possibly reduced modulo a larger power of two).
+func pow2Factor(t *Term) int {
+	if t.op == "mod" && len(t.args) == 2 {
+		return pow2Factor(t.args[0])
+	}
+	if t.op == "*" && len(t.args) == 2 {
+		for _, a := range t.args {
+			if v, ok := a.intVal(); ok && v > 1 && v&(v-1) == 0 {
+				k := 0
+				for v > 1 {
+					v >>= 1
+					k++
+				}
+				return k
+			}
+		}
+	}
+	return 0
+}
 
 func (x *Exec) shl(st *State, a, b *Term) *Term {
 	if n, ok := b.intVal(); ok && n >= 0 && n < 62 {
